@@ -2,7 +2,6 @@
 import random
 
 META = {
-    "disabled": True,
     "level": "model_checking",
     "text": "TLC exhaustively checks the index/identity pipeline between tECDSA key generation and signing (exclusion marking, "
             "TSS party identities seed+member, the key share's sorted Ks, registerSigner/finalSigningGroup index shift, the signing "
